@@ -652,7 +652,7 @@ def main():
     run.assume('bay length/width concrete (the stiffener code compares a/b with 10 and caps the penalty constant with min(1e7, kt): symbolic kt is taken below the cap)',
                'component laminates are contract stubs with symbolic ABD (C01)', 'stand-alone component matrices are decided against energies in C02-C04/C12; this check decides the composition',
                'sub-interval additivity lemma (C10) for the skin partition')
-    run.outside = ['positive semi-definiteness of the 2-D stiffeners is composed from C02/C04 (component panels) and C12-type penalty blocks; the blocks themselves are decided against the mismatch energy here only for BladeStiff2D', 'more than 4 stiffeners / 4 cuts']
+    run.outside = ['positive semi-definiteness of the 2-D stiffeners is a composition (component panels: C02/C04; connection blocks = mismatch-energy Hessians, decided here), not a query', 'more than 4 stiffeners / 4 cuts']
     res = pmap(kprop.job, [(__name__, c) for c in cf])
     res = kprop.explore_loci(__name__, res, run)      # second pass: the equality loci the executed code branched on
     for r in res:
